@@ -24,9 +24,10 @@ def run_call(c, variant):
     mos = [base.encode_batch(mb, A, dtype) for mb in c["mo"]]
     start = None if c["start"] == NOSTART else c["start"]
     as_string = (variant // 7) % 2 == 1 and all(len(mb) == 1 for mb in c["mo"])
-    alphabet = list(LETTERS[:A])
+    rot = (variant // 14) % A            # the same letters in another order: symbol s is alphabet[s], whatever the order
+    alphabet = [LETTERS[(k + rot) % A] for k in range(A)]
     if as_string:
-        mo_args = ["".join(LETTERS[s] for s in mb[0]) for mb in c["mo"]]
+        mo_args = ["".join(alphabet[s] for s in mb[0]) for mb in c["mo"]]
     else:
         mo_args = mos
     ins = [x] + mos
